@@ -4,6 +4,7 @@ import (
 	"bytes"
 	"encoding/json"
 	"fmt"
+	"math"
 	"math/rand"
 	"strconv"
 	"strings"
@@ -46,6 +47,12 @@ func matchesDecoded(d interface{}, t octosql.Type) bool {
 		}
 		if fileh.AdmitsID(t, octosql.TypeIDDuration) {
 			if _, err := time.ParseDuration(x); err == nil {
+				return true
+			}
+		}
+		if fileh.AdmitsID(t, octosql.TypeIDFloat) {
+			// JSON has no literal for NaN / +-Inf; a string strconv reads as such stands for the float
+			if f, err := strconv.ParseFloat(x, 64); err == nil && (math.IsNaN(f) || math.IsInf(f, 0)) {
 				return true
 			}
 		}
